@@ -57,6 +57,94 @@ def _retype_for_coercion(rng, fs, col, numeric_only=False):
         pass
 
 
+NULL_TEXT = {"float64": ["nan", "NaN", "nan", "None", ""],
+             "datetime": ["NaT", "NaT", "nat", "None", ""]}
+
+
+def _coercion_made_nulls(rng, spec, fs, col, p=0.45):
+    """Cells that are *not* null in the input but become null through coercion
+    (the texts "nan" / "NaT" / "None" / "" in an object column coerced to float
+    / datetime), in a column that has a default: default filling has to cover
+    the nulls that coercion creates, or the output is not a fixpoint.  Whether
+    a given text is coercible at all is pandas' business - the case is marked
+    inexact and only judged when validate returns."""
+    if col is None or not col["values"] or col["phys"] != "object" \
+            or fs["dtype"] not in NULL_TEXT or fs["unique"] or fs.get("regex") \
+            or not (fs.get("coerce") or spec.get("coerce")) or rng.random() >= p:
+        return False
+    if not all(isinstance(v, str) for v in col["values"]):
+        return False
+    ok = G.satisfying(fs)
+    if not ok:
+        return False
+    if fs.get("default") is None:
+        fs["default"] = rng.choice(ok)
+    if rng.random() < 0.75:
+        fs["nullable"] = True
+    for _ in range(rng.randint(1, 2)):
+        col["values"][rng.randrange(len(col["values"]))] = rng.choice(NULL_TEXT[fs["dtype"]])
+    return True
+
+
+def force_index_combo(rng, spec, table):
+    """drop_invalid_rows with a single-level Index schema whose check fails on
+    some row TOGETHER with a column error on a row at a smaller position (the
+    failure cases of an Index schema are positions: they go stale when rows are
+    dropped error by error).  Row labels stay unique and non-null.  Mutates
+    spec / table; returns True when the combination was produced."""
+    if spec["kind"] != "frame" or not table["columns"]:
+        return False
+    n = len(table["columns"][0]["values"])
+    if n < 3 or any(len(c["values"]) != n for c in table["columns"]):
+        return False
+    names = [c["name"] for c in table["columns"]]
+    if len(set(names)) != len(names):
+        return False
+    # -- the column error: a failing check, else a null in a non-nullable column
+    cands = []
+    for fs in spec["columns"]:
+        if fs["regex"]:
+            continue
+        for c in table["columns"]:
+            if c["name"] == fs["name"] and c["phys"] == G.PHYS_OF[fs["dtype"]]:
+                bad = G.violating(fs) if fs["checks"] else []
+                if bad and not fs["unique"]:
+                    cands.append((fs, c, "check", bad))
+                elif not fs["nullable"] and c["phys"] in ("float64", "object", "datetime"):
+                    cands.append((fs, c, "null", None))
+    if not cands:
+        return False
+    # -- the index schema: one level, a check with >= n conforming and >= 1
+    #    violating pool values
+    ifs = None
+    for _ in range(8):
+        f = G.gen_field(rng, rng.choice(["i0", None]), rng.choice(["int64", "str", "float64", "datetime"]),
+                        p_checks=1.0, max_checks=1)
+        f["nullable"], f["unique"] = False, rng.random() < 0.3
+        if len(G.satisfying(f)) >= n and G.violating(f):
+            ifs = f
+            break
+    if ifs is None:
+        return False
+    good = rng.sample(G.satisfying(ifs), n)
+    j = rng.randrange(1, n)
+    i = rng.randrange(0, j)
+    good[j] = rng.choice([x for x in G.violating(ifs)])
+    spec["index"] = [ifs]
+    table["index"] = {"levels": [{"name": ifs["name"], "phys": G.PHYS_OF[ifs["dtype"]],
+                                  "values": good}]}
+    fs, c, how, bad = rng.choice(cands)
+    c["values"][i] = rng.choice(bad) if how == "check" else None
+    if rng.random() < 0.4 and j + 1 < n:
+        # a second index failure further down
+        k = rng.randrange(j + 1, n)
+        more = [x for x in G.violating(ifs) if x not in good]
+        if more:
+            good[k] = rng.choice(more)
+    spec["drop_invalid_rows"] = True
+    return True
+
+
 def add_parse_options(rng, spec, table, *, neutral=False, allow_drop=True):
     """Mutates spec/table in place; returns the list of options applied."""
     opts = []
@@ -79,6 +167,9 @@ def add_parse_options(rng, spec, table, *, neutral=False, allow_drop=True):
                 fs["default"] = rng.choice(ok)
                 col["values"][rng.randrange(len(col["values"]))] = None
                 opts.append("default")
+        if _coercion_made_nulls(rng, spec, fs, col):
+            opts.append("coercion_made_nulls")
+            opts.append("inexact:coercion_makes_nulls")
         if spec.get("index") and rng.random() < 0.5 and table.get("index"):
             for ifs, lev in zip(spec["index"], table["index"]["levels"]):
                 ifs["coerce"] = True
@@ -127,6 +218,9 @@ def add_parse_options(rng, spec, table, *, neutral=False, allow_drop=True):
                 fs["default"] = rng.choice(ok)
                 col["values"][rng.randrange(len(col["values"]))] = None
                 opts.append("default")
+        if not neutral and _coercion_made_nulls(rng, spec, fs, col):
+            opts.append("coercion_made_nulls")
+            opts.append("inexact:coercion_makes_nulls")
         if not neutral and fs["dtype"] in PARSERS and rng.random() < 0.15:
             fs["parser"] = rng.choice(sorted(PARSERS[fs["dtype"]]))
             opts.append("column_parser")
@@ -200,7 +294,7 @@ def strip(spec):
 
 
 def gen_parse_case(rng, *, neutral=False, allow_drop=True, kind=None, mutate_p=0.35,
-                   neutral_regex=False):
+                   neutral_regex=False, labels_p=0.25, index_combo_p=0.0):
     spec = G.gen_spec(rng, neutral=neutral, kind=kind, neutral_regex=neutral_regex)
     spec.pop("checks", None)
     if spec["kind"] == "frame":
@@ -210,4 +304,152 @@ def gen_parse_case(rng, *, neutral=False, allow_drop=True, kind=None, mutate_p=0
     muts = []
     if rng.random() < mutate_p or spec.get("drop_invalid_rows"):
         muts = G.mutate(rng, spec, table, k=rng.choice([1, 1, 2]))
+    if index_combo_p and not neutral and rng.random() < index_combo_p \
+            and force_index_combo(rng, spec, table):
+        if "drop_invalid_rows" not in opts:
+            opts.append("drop_invalid_rows")
+        opts.append("combo:index_error_below_column_error")
+        muts.append(("index_combo",))
+    if labels_p and G.relabel(rng, spec, table, p=labels_p, polars=neutral):
+        opts.append("falsy_labels")
     return spec, table, opts, muts
+
+
+# ------------------------------------------------ parser-stage failures
+def inject_parser_failures(rng, spec, table, *, neutral=False):
+    """Make the *parsing* stage fail (errors that are raised by the parsers
+    whatever the validation depth is): a value that cannot be coerced in a
+    coerce=True column, a default that does not fit the column, a missing
+    column that add_missing_columns cannot fill, a single Index schema on a
+    MultiIndex.  Mutates spec / table, returns the tags of what was injected."""
+    tags = []
+    if spec["kind"] == "series":
+        fs, col = spec["field"], table["columns"][0]
+        if fs["dtype"] in ("int64", "float64", "datetime") and col["values"] \
+                and all(v is not None for v in col["values"]):
+            fs["coerce"] = True
+            col["phys"] = "object"
+            col["values"] = [str(v) for v in col["values"]]
+            col["values"][rng.randrange(len(col["values"]))] = rng.choice(["x?", "1.5.2", "not-a-date"])
+            tags.append("uncoercible_value")
+        return tags
+    cols = {c["name"]: c for c in table["columns"]}
+    plain = [fs for fs in spec["columns"] if not fs["regex"] and fs["name"] in cols]
+    rng.shuffle(plain)
+    want = rng.sample(["coerce", "coerce", "default", "missing", "index"], rng.randint(1, 2))
+    for fs in plain:
+        col = cols[fs["name"]]
+        if "coerce" in want and fs["dtype"] in ("int64", "float64", "datetime") and col["values"] \
+                and all(v is not None for v in col["values"]) and col["phys"] != "object":
+            if not spec.get("coerce"):
+                fs["coerce"] = True
+            col["phys"] = "object"
+            col["values"] = [str(v) for v in col["values"]]
+            col["values"][rng.randrange(len(col["values"]))] = rng.choice(["x?", "1.5.2", "not-a-date"])
+            tags.append("uncoercible_value")
+            want.remove("coerce")
+            continue
+        if "default" in want and not neutral and fs["dtype"] == "int64" and col["values"] \
+                and col["phys"] in ("int64", "Int64") and fs.get("default") is None:
+            # a float default on a nullable-integer column cannot be filled in
+            col["phys"] = "Int64"
+            col["values"][rng.randrange(len(col["values"]))] = None
+            fs["default"] = 0.5
+            tags.append("unfillable_default")
+            want.remove("default")
+            continue
+        if "missing" in want and len(table["columns"]) > 1:
+            spec["add_missing_columns"] = True
+            fs["default"] = None
+            fs["nullable"] = False
+            fs["required"] = True
+            table["columns"] = [c for c in table["columns"] if c["name"] != fs["name"]]
+            cols.pop(fs["name"], None)
+            tags.append("missing_column_without_default")
+            want.remove("missing")
+            continue
+    if "index" in want and not neutral and spec.get("index") and len(spec["index"]) == 1 \
+            and table.get("index") and len(table["index"]["levels"]) == 1:
+        n = len(table["index"]["levels"][0]["values"])
+        table["index"]["levels"].append({"name": "extra_level", "phys": "int64",
+                                         "values": list(range(n))})
+        tags.append("index_schema_on_multiindex")
+    return tags
+
+
+def force_range_index(rng, spec, table, with_column_error=0.5):
+    """drop_invalid_rows with an Index check failing on a frame whose index is a
+    pd.RangeIndex that is NOT RangeIndex(0, n, 1) - a slice df.iloc[k:], a
+    1-based or a stepped range: labels and positions differ although the index
+    'is a RangeIndex'.  Optionally a column error on another row."""
+    if spec["kind"] != "frame" or not table["columns"]:
+        return False
+    n = len(table["columns"][0]["values"])
+    names = [c["name"] for c in table["columns"]]
+    if n < 3 or any(len(c["values"]) != n for c in table["columns"]) or len(set(names)) != len(names):
+        return False
+    for _ in range(12):
+        f = G.gen_field(rng, rng.choice(["i0", None]), "int64", p_checks=1.0, max_checks=1)
+        f["nullable"], f["unique"] = False, rng.random() < 0.3
+        start, step = rng.choice([(1, 1), (2, 1), (3, 1), (-2, 1), (0, 2), (1, 2), (0, 3), (5, -1), (7, 1)])
+        vals = [start + i * step for i in range(n)]
+        bad = [i for i, x in enumerate(vals) if not all(model.check_cell(c, x) for c in f["checks"])]
+        if bad and len(bad) < n:
+            break
+    else:
+        return False
+    spec["index"] = [f]
+    table["index"] = {"levels": [{"name": f["name"], "phys": "range", "start": start, "step": step,
+                                  "values": vals}]}
+    if rng.random() < with_column_error:
+        good_rows = [i for i in range(n) if i not in bad]
+        cands = []
+        for fs in spec["columns"]:
+            if fs["regex"] or fs["unique"] or not fs["checks"]:
+                continue
+            for c in table["columns"]:
+                if c["name"] == fs["name"] and c["phys"] == G.PHYS_OF[fs["dtype"]] and G.violating(fs):
+                    cands.append((fs, c))
+        if cands and good_rows:
+            fs, c = rng.choice(cands)
+            c["values"][rng.choice(good_rows)] = rng.choice(G.violating(fs))
+    spec["drop_invalid_rows"] = True
+    return True
+
+
+def add_whole_column_check(rng, spec, table, p_fail=0.6):
+    """A check whose function returns ONE boolean for the whole column / frame
+    (aggregate check) or raises: its violation cannot be attributed to rows, so
+    drop_invalid_rows cannot repair it.  Appended to a random column / the
+    series field / an index level / the frame.  Returns a tag or None."""
+    def mk(nvalues):
+        if rng.random() < 0.3:
+            return {"kind": "custom_raise", "args": {}, "ignore_na": True}, "custom_raise"
+        k = max(0, nvalues - 1) if rng.random() < p_fail else nvalues + rng.randint(0, 2)
+        return ({"kind": "custom_agg", "args": {"fn": "len_le", "value": k}, "ignore_na": True},
+                "custom_agg:" + ("fail" if k < nvalues else "pass"))
+    if spec["kind"] == "series":
+        col = table["columns"][0]
+        chk, tag = mk(sum(1 for v in col["values"] if v is not None))
+        spec["field"]["checks"].append(chk)
+        return "series:" + tag
+    where = rng.choice(["column", "column", "frame", "index"])
+    if where == "index" and spec.get("index") and table.get("index") \
+            and len(spec["index"]) == len(table["index"]["levels"]):
+        k = rng.randrange(len(spec["index"]))
+        lev = table["index"]["levels"][k]
+        chk, tag = mk(sum(1 for v in lev["values"] if v is not None))
+        spec["index"][k]["checks"].append(chk)
+        return "index:" + tag
+    if where == "frame" and table["columns"]:
+        chk, tag = mk(len(table["columns"][0]["values"]))
+        spec["checks"] = list(spec.get("checks") or []) + [chk]
+        return "frame:" + tag
+    cols = {c["name"]: c for c in table["columns"]}
+    cands = [fs for fs in spec["columns"] if not fs["regex"] and fs["name"] in cols]
+    if not cands:
+        return None
+    fs = rng.choice(cands)
+    chk, tag = mk(sum(1 for v in cols[fs["name"]]["values"] if v is not None))
+    fs["checks"].append(chk)
+    return "column:" + tag
